@@ -462,9 +462,9 @@ fn oracle_toks(toks: &[Tok], text: &str, seen: &Seen) -> String {
     }
     // Multi-character collating elements are outside the defined notation (the POSIX locale has none):
     // which of `a` / `ab` a bracket takes first is unspecified, so extremality is not judged for them.
-    if toks.iter().any(|t| matches!(t, Tok::Set { seqs, .. } if !seqs.is_empty())) {
-        return "ok".into();
-    }
+    // (on the prefix side; the leftmost / rightmost matching START does not depend on it, so the suffix
+    // configurations are judged for every pattern)
+    let has_seq = toks.iter().any(|t| matches!(t, Tok::Set { seqs, .. } if !seqs.is_empty()));
     // find / rfind of the four trim configurations
     let want: [Option<std::ops::Range<usize>>; 4] = [
         prefixes.first().map(|&k| 0..off[k]),
@@ -473,6 +473,9 @@ fn oracle_toks(toks: &[Tok], text: &str, seen: &Seen) -> String {
         suffixes.first().map(|&k| off[k]..text.len()),
     ];
     for i in 0..4 {
+        if has_seq && i < 2 {
+            continue;
+        }
         let got = if i == 2 { &seen.f[i].1 } else { &seen.f[i].0 };
         if *got != want[i] {
             return format!("FAIL:find config {i} got {got:?} want {:?}", want[i]);
@@ -484,6 +487,9 @@ fn oracle_toks(toks: &[Tok], text: &str, seen: &Seen) -> String {
         if v != seen.t[i] {
             return format!("FAIL:trim {i}");
         }
+    }
+    if has_seq {
+        return "ok".into();
     }
     // any reported range is a match, the find start is leftmost and the rfind start rightmost
     for (i, (a, b)) in seen.f.iter().enumerate() {
@@ -698,6 +704,64 @@ fn run_shell(subj: &str, q1: &str, p1: &str, q2: &str, p2: &str) -> String {
     let arrays: Vec<String> =
         lines.take(4).map(|l| l.split_once(':').map(|x| x.1).unwrap_or("?").to_string()).collect();
     format!("arm={arm} T={t} A={}", arrays.join("/"))
+}
+
+/// The property's trim clause evaluated on what the shell printed: `"$2"$3` as a pattern, brute-force
+/// shortest/longest matching prefix/suffix of the scalar and of the four array elements.  Prefix results are
+/// judged only without multi-character collating elements.
+fn shell_trim_oracle(subj: &str, q: &str, p: &str, obs: &str) -> String {
+    let pcs = alt_pcs(&Alt::Mixed(q.to_string(), p.to_string()));
+    let Some(toks) = oracle_parse(&pcs) else { return "-".into() };
+    let has_seq = toks.iter().any(|t| matches!(t, Tok::Set { seqs, .. } if !seqs.is_empty()));
+    let trim = |v: &str, i: usize| -> String {
+        let s: Vec<char> = v.chars().collect();
+        let n = s.len();
+        let pre: Vec<usize> = (0..=n).filter(|&k| gm(&toks, &s[..k])).collect();
+        let suf: Vec<usize> = (0..=n).filter(|&k| gm(&toks, &s[k..])).collect();
+        match i {
+            0 => pre.first().map(|&k| s[k..].iter().collect()).unwrap_or(v.to_string()),
+            1 => pre.last().map(|&k| s[k..].iter().collect()).unwrap_or(v.to_string()),
+            2 => suf.last().map(|&k| s[..k].iter().collect()).unwrap_or(v.to_string()),
+            _ => suf.first().map(|&k| s[..k].iter().collect()).unwrap_or(v.to_string()),
+        }
+    };
+    let field = |name: &str| -> Option<String> {
+        obs.split(' ').find_map(|w| w.strip_prefix(name).map(|x| x.to_string()))
+    };
+    let (Some(t), Some(a)) = (field("T="), field("A=")) else { return "-".into() };
+    let t: Vec<&str> = t.split(',').collect();
+    let a: Vec<Vec<&str>> = a.split('/').map(|x| x.split(',').collect()).collect();
+    let arr = [subj.to_string(), format!("x{subj}"), format!("{subj}{subj}"), String::new()];
+    for i in 0..4 {
+        if has_seq && i < 2 {
+            continue;
+        }
+        if t.get(i).map(|x| x.to_string()) != Some(enc_str(&trim(subj, i))) {
+            return format!("FAIL:scalar trim {i} want {}", enc_str(&trim(subj, i)));
+        }
+        for (j, v) in arr.iter().enumerate() {
+            if a.get(i).and_then(|r| r.get(j)).map(|x| x.to_string()) != Some(enc_str(&trim(v, i))) {
+                return format!("FAIL:array trim {i} element {j} want {}", enc_str(&trim(v, i)));
+            }
+        }
+    }
+    "ok".into()
+}
+
+/// patterns WITHOUT `*` whose matches have different lengths: brackets with a multi-character collating
+/// symbol / equivalence class next to one of its own characters, alone and beside `?` and ordinary characters
+fn variable_length_patterns(x: char, y: char) -> Vec<String> {
+    vec![
+        format!("[[.{x}{y}.]{y}]"),
+        format!("[[.{x}{y}.]{x}]"),
+        format!("[[={x}{y}=]{y}]"),
+        format!("[{y}[.{x}{y}.]]"),
+        format!("?[[.{x}{y}.]{y}]"),
+        format!("[[.{x}{y}.]{x}]?"),
+        format!("[[.{x}{y}.]{y}][[.{x}{y}.]{y}]"),
+        format!("a[[.{x}{y}.]{x}{y}]"),
+        format!("[[.{x}{y}{y}.][={x}{y}=]{y}]"),
+    ]
 }
 
 // ------------------------------------------------------------------------------------------
@@ -1225,7 +1289,8 @@ fn run_case(case: &str, memo: &mut Option<Compiled>) {
                 return;
             };
             let obs = guarded(|| run_shell(&d[0], &d[1], &d[2], &d[3], &d[4]));
-            emit(case, &obs, "-");
+            let oracle_out = shell_trim_oracle(&d[0], &d[1], &d[2], &obs);
+            emit(case, &obs, &oracle_out);
         }
         ["k", subj, rest @ ..] if !rest.is_empty() => {
             let parsed: Option<Vec<(char, char, Vec<Alt>)>> = rest
@@ -1367,6 +1432,20 @@ fn main() {
     let mut rk = Rng::new(opts.seed ^ 0xCA5E);
     for _ in 0..ncase {
         go(rand_case(&mut rk));
+    }
+
+    // 4b. variable match length without `*` (both the crate and the shell): multi-character collating
+    // elements, ASCII and multi-byte, against every subject over the same characters
+    for (x, y) in [('c', 'h'), ('a', 'b'), ('é', 'a'), ('𝄞', 'あ')] {
+        let subjects = all_strings(&[x, y, 'a'], if thorough { 4 } else { 3 });
+        for p in variable_length_patterns(x, y) {
+            for t in &subjects {
+                go(mcase(false, &p, t));
+            }
+            for t in &subjects {
+                go(format!("s {} - {} - {}", enc_str(t), enc_str(&p), enc_str("?")));
+            }
+        }
     }
 
     // 4. shell leg
